@@ -408,14 +408,18 @@ def reject_floors(ctx):
         n = 0
         bodies = [b] + [x for x in ctx.f.bodies if x.path.startswith(P + "::{closure")]
         for bd in bodies:
+            # a closure created at k places of the function (e.g. a helper inlined at k call sites) counts k times
+            w = 1
+            if bd is not b:
+                w = max(1, sum(1 for blk in b.blocks if not blk["cleanup"] for st in blk["stmts"] if st["k"] == "assign" and st["rv"]["k"] == "agg" and st["rv"].get("agg") == "closure" and strip_lt(st["rv"].get("def", "")) == bd.path))
             for bb, t, r in call_sites(bd, lambda r: r == "re_compiler::Error::syntax"):
-                n += 1
+                n += w
             for blk in bd.blocks:
                 if blk["cleanup"]:
                     continue
                 for st in blk["stmts"]:
                     if st["k"] == "assign" and st["rv"]["k"] == "agg" and strip_lt(st["rv"].get("adt", "")) == "re_compiler::Error" and st["rv"]["variant"] in ("InvalidFlags", "Syntax"):
-                        n += 1
+                        n += w
         name = P.split("::")[-1]
         out.append(ok("floor|%s" % name) if n >= fl else bad("floor|%s" % name, "%s constructs %d syntax/flag errors; %d rejections were confirmed by reading: a check was removed" % (P, n, fl), b.loc()))
     return out
